@@ -300,6 +300,12 @@ sds_read_header (SF_PRIVATE *psf, SDS_PRIVATE *psds)
 
 	psf_log_printf (psf, "Frames         : %d\n", blockcount * psds->samplesperblock) ;
 
+	/* The header field cannot promise more than the blocks that are actually there. */
+	if (psds->frames > blockcount * psds->samplesperblock)
+	{	psf_log_printf (psf, "*** Data length (%d frames) exceeds the blocks present.\n", psds->frames) ;
+		psf->sf.frames = psds->frames = blockcount * psds->samplesperblock ;
+		} ;
+
 	/* Always Mono */
 	psf->sf.channels = 1 ;
 	psf->sf.sections = 1 ;
